@@ -309,3 +309,102 @@ def check_c11(prop, tier, seed):
     res['assumptions'] = LOCK_ASSUME + ['arrival = the first modification of the lock object inside a Lock* call (derived from the '
                                         'instrumented operation stream)']
     return res
+
+
+# ------------------------------------------------------------------------------------------------
+# C08: happens-before between conflicting critical sections
+# ------------------------------------------------------------------------------------------------
+HB_FIELDS = ('t', 'loc', 'acq', 'rel', 'sid', 'm', 'lk', 'u')
+
+
+def norm_hb(e):
+    o = {'e': e['e']}
+    for k in HB_FIELDS:
+        o[k] = e.get(k, '-' if k == 'm' else 0)
+    return o
+
+
+def hb_trace_check(prop, tier, seed, plan):
+    bdir = vlib.build(4)
+    workdir = os.path.join(OUT, 'work', prop)
+    os.makedirs(workdir, exist_ok=True)
+    prog_text = {}
+    for cls, progs, par in plan:
+        for p in progs:
+            prog_text[p.split()[1]] = (cls, p)
+    from concurrent.futures import ThreadPoolExecutor
+
+    def run_item(item):
+        k, (cls, progs, par) = item
+        return explore_lock(bdir, cls, progs, workdir, par.get('pb', 2), par.get('max_exec', 4000), seed,
+                            mode=par.get('mode', 'dfs'), tag='%s%d' % (cls, k))
+    execs = []
+    with ThreadPoolExecutor(max_workers=6) as pool:
+        for ex in pool.map(run_item, list(enumerate(plan))):
+            execs.extend(e for e in ex if e.status == 'ok')
+    skipped = 0
+
+    def proj(ex):
+        st, ok = vlib.hb_stream(ex, prog_text[ex.prog][1])
+        if not ok:
+            return [{'e': 'skip'}]
+        return [norm_hb(e) for e in st]
+    groups = vlib.dedup_histories(execs, proj)
+    groups = [g for g in groups if g[0] and g[0][0].get('e') != 'skip']
+    hists = [g[0] for g in groups]
+    reps = [g[1] for g in groups]
+    spec = os.path.join(SPEC, 'HBTrace.tla')
+    cfg = os.path.join(SPEC, 'cfg', 'HBTrace.cfg')
+    rej, st = vlib.validate_until_clean(spec, cfg, hists, workdir, 'hb', max_rounds=3)
+    violations = []
+    sites = collections.Counter()
+    for r in rej[:10]:
+        ex = reps[r['hist']]
+        h = hists[r['hist']]
+        cls, ptext = prog_text[ex.prog]
+        bad = h[r['line']] if r['line'] < len(h) else {}
+        # the release that failed to publish: last op of the ended conflicting section's thread is in the raw trace;
+        # report the memory orders seen at the unlocking / locking sites of this execution
+        rel_sites = sorted({'%s %s %s' % (e['site'], e['k'], e['mo']) for e in ex.events if e.get('e') == 'op'})
+        fam = ex.prog
+        sig = ['cls:' + cls, 'ev:' + str(bad.get('e')), 'mode:' + str(bad.get('m'))]
+        violations.append({
+            'desc': '%s: in program %s (schedule %s) a %s section of thread %s begins although an ended conflicting section of '
+                    'another thread does not happen-before it; memory orders used: %s'
+                    % (prop, ex.prog, ex.sched, bad.get('m'), bad.get('t'), '; '.join(rel_sites)),
+            'signature': sig,
+            'replay': {'kind': 'lock-hb', 'cls': cls, 'program': ptext, 'schedule': ex.sched, 'n': 4},
+        })
+    mo_table = collections.OrderedDict()
+    for ex in reps:
+        for e in ex.events:
+            if e.get('e') == 'op':
+                mo_table[e['site'] + ' ' + e['k'].replace('casf', 'cas(fail)')] = e['mo']
+    cov = {
+        'states': max(1, st['distinct']), 'transitions': max(1, st['states']),
+        'traces_validated_against_impl': len(execs), 'distinct_operation_streams': len(hists),
+        'events_validated': st['events'], 'programs': len(prog_text),
+        'memory_orders_observed': dict(sorted(mo_table.items())),
+        'samples': [{'program': reps[i].prog, 'schedule': reps[i].sched,
+                     'stream_head': [{k: v for k, v in e.items() if v not in (0, '-')} for e in hists[i][:16]]}
+                    for i in range(0, len(hists), max(1, len(hists) // 2))][:2],
+        'rejected_streams': len(rej),
+    }
+    return {'level': 'model_checking', 'violations': violations, 'coverage': cov,
+            'assumptions': LOCK_ASSUME + ['happens-before is derived by the C++20 rules (release sequences continued by RMWs only, '
+                                          'fences) from the memory_order arguments logged at run time, over sequentially consistent '
+                                          'interleavings; executions in which a load returns a stale value are not explored',
+                                          'the final probing thread runs after the others were joined (modelled as sync edges)']}
+
+
+@register('C08')
+def check_c08(prop, tier, seed):
+    q = tier == 'quick'
+    plan = []
+    for cls in ('pess', 'opt', 'mcs'):
+        lib = ALLOPT if cls == 'opt' else programs.COMMON_SCRIPTS
+        plan.append((cls, programs.cross2(cls, lib), dict(pb=2 if q else 3, max_exec=1500 if q else 40000)))
+        plan.append((cls, programs.cross3(cls, CONV + ('X',), MODES3, MODES3), dict(pb=1, max_exec=300 if q else 5000)))
+    plan.append(('opt', programs.cross2('opt', ('GTS', 'GTI', 'GTX', 'PRV', 'GTIUP'), ('S', 'SIX', 'UPG', 'XSV0'), tag='rep'),
+                 dict(pb=3, max_exec=3000 if q else 40000)))
+    return hb_trace_check(prop, tier, seed, plan)
